@@ -190,3 +190,31 @@ Theorem ppo_flat_env_independent_partial (c0 : list gstep) (rest1 rest2 : list (
 Proof.
   intros Hne Hterm. unfold ppo_flat_gae. cbn [concat]. rewrite !gae_cut by assumption. reflexivity.
 Qed.
+
+(* ---- masked model rollout (MR.Q encoder loss) ---- *)
+Lemma masked_rollout_zero (steps : list (R * R)) : masked_rollout 0 steps = 0.
+Proof.
+  induction steps as [|[l nd] rest IH]; cbn [masked_rollout]; [reflexivity|].
+  cbn [nmul nadd nzero R_ops]. replace (nd * 0) with 0 by ring. rewrite IH. ring.
+Qed.
+
+(** whatever follows the first terminated step (not_done = 0) of a sub-trajectory does not enter its loss *)
+Theorem rollout_ignores_post_terminal (pre post post' : list (R * R)) (l m : R) :
+  masked_rollout m (pre ++ (l, 0) :: post) = masked_rollout m (pre ++ (l, 0) :: post').
+Proof.
+  revert m. induction pre as [|[l0 nd0] pre IH]; intro m; cbn [app masked_rollout].
+  - cbn [nmul nadd R_ops]. replace (0 * m) with 0 by ring. rewrite !masked_rollout_zero. reflexivity.
+  - rewrite (IH (nmul nd0 m)). reflexivity.
+Qed.
+
+Corollary rollout_loss_ignores_post_terminal (pre post post' : list (R * R)) (l : R) :
+  rollout_loss (pre ++ (l, 0) :: post) = rollout_loss (pre ++ (l, 0) :: post').
+Proof. apply rollout_ignores_post_terminal. Qed.
+
+(** the non-cumulative mask lets data two steps after a termination back in *)
+Lemma rollout_noncum_refuted : exists (pre post post' : list (R * R)) (l : R),
+  rollout_noncum 1 (pre ++ (l, 0) :: post) <> rollout_noncum 1 (pre ++ (l, 0) :: post').
+Proof.
+  exists [], [(0, 1); (1, 1)], [(0, 1); (2, 1)], 0.
+  cbn [app rollout_noncum nmul nadd nzero R_ops]. lra.
+Qed.
